@@ -34,7 +34,10 @@ def wake_race(ctx):
     res = lib.run_go(ctx, "multiplex", "TestVerifC03WakeRace", timeout=900)
     lib.collect_go(ctx, res)
     ctx.log("wake-up race: %d trials, %d violations" % (res["stats"].get("trials", 0), len(res.get("violations", []))))
-    out = {"evaluations": res["stats"].get("trials", 0), "distinct_nontrivial": res["distinct_nontrivial"], "samples": res["samples"][:1],
+    qd = lib.run_go(ctx, "multiplex", "TestVerifC03Queued", timeout=900, tag="queued")
+    lib.collect_go(ctx, qd)
+    ctx.log("queued / stalled sender scenarios: %d, %d violations, %d unjudged" % (qd["evaluations"], len(qd.get("violations", [])), qd["stats"].get("unjudged", 0)))
+    out = {"evaluations": res["stats"].get("trials", 0) + qd["evaluations"], "distinct_nontrivial": res["distinct_nontrivial"], "samples": res["samples"][:1],
            "traces": 0, "wake_race_trials": res["stats"].get("trials", 0)}
     if not ctx.quick():
         # the receive pipe under the stream (spec/StreamPipe.tla, extra X01): every short schedule of Read / Write / the
